@@ -277,6 +277,7 @@ func runC20(w *W, i uint64) {
 		eng := re.VerifEngine()
 		buf := make([][2]int, 0, 1<<16)
 		buf4 := make([][2]int, 0, 4)
+		fixed16 := make([][2]int, 0, 16)
 		for k, h := range pool {
 			if len(h) > 4096 {
 				continue
@@ -297,6 +298,8 @@ func runC20(w *W, i uint64) {
 				}},
 				{"AppendAllIndex", func() { buf = re.AppendAllIndex(buf[:0], h, -1) }},
 				{"AppendAllIndex(n=2,cap=4)", func() { buf4 = re.AppendAllIndex(buf4[:0], h, 2) }},
+				// a caller that keeps ONE fixed buffer (it does not adopt the returned slice): sufficient for the 16 matches asked for
+				{"AppendAllIndex(fixed buffer,cap=16,n=16)", func() { re.AppendAllIndex(fixed16[:0], h, 16) }},
 			}
 			matched := false
 			callNoPanic(func() { matched = re.Match(h) })
